@@ -209,7 +209,7 @@ class Func:
             inner = self.expr(ch[0])
             return inner
         if k == 'int':
-            return E('int', cv=cv, nid=nid)
+            return E('int', cv=cv, nid=nid, n=n.get('mo'))     # n = name of the macro it was spelled through, if any
         if k == 'float':
             return E('float', n=n.get('v'), nid=nid)
         if k == 'str':
